@@ -717,15 +717,9 @@ func (s *manifestSession) judgeCut(b []byte, c int, r replayRes, fail func(strin
 		return
 	}
 	if inside && c >= start+8 && l > c {
-		// The length sanity check fires before the payload read: the frame length exceeds the
-		// size of the torn file.
-		st.Inc("cut:len-exceeds-file")
-		if r.err == "ok" {
-			return
-		}
-		fail("[F16:manifest-trunc-length-check] torn last frame (payload length " + strconv.Itoa(l) +
-			" > file size " + strconv.Itoa(c) + ") is reported as an error instead of a truncation: " + r.err)
-		return
+		// the class of finding F16 (fixed): the frame length exceeds the size of the torn file;
+		// the old length check turned this torn tail into an Open error
+		st.Inc("cut:len-exceeds-torn-file")
 	}
 	st.Inc("cut:judged")
 	if r.err != "ok" {
